@@ -873,7 +873,11 @@ def filter_stage(c):
 def run(c):
   import glob
   import os
+  # translator: the keys of every SQL query (what the policy supporter's GetTrials is built on), kernel-checked
+  from vcheck import sqlkeyscheck
+  sqlkeyscheck.translate(c)
   c.proof_stage()
+  sqlkeyscheck.stage(c)
   from vcheck import svc
   shortcut, corpus = identify(c)
   # ---- corpus: the witnesses (and any stored case), judged like every other history — the findings are
